@@ -421,12 +421,15 @@ class Run(object):
                 self.trie[faulty_key(key, k, ev["kind"])] = dec_value(ev["val"])
             except SimFault:
                 outcome = "SimFault"
-            except TypeError:
-                outcome = "TypeError"
+            except (TypeError, KeyError, ValueError):
+                outcome = "rejected"
             stats.event("%s|set_fault|%s|%s|%d|%s" % (ev.get("c"), canon(ev["key"]), ev["kind"], k, outcome))
             stats.fault(ev["kind"])
-            expected = "SimFault" if ev["kind"] == "key_iter_raises" else "TypeError"
-            self.expect("failed_assignment_propagates", "set_fault", outcome, expected, {"key": ev["key"], "k": k})
+            if ev["kind"] == "key_iter_raises":
+                # the caller's own exception must come back to the caller
+                self.expect("failed_assignment_propagates", "set_fault", outcome, "SimFault", {"key": ev["key"], "k": k})
+            elif outcome == "returned":
+                raise HarnessError("an unhashable token was accepted")
             # a failed assignment assigns nothing: the model is unchanged
             self.sweep("set_fault")
         elif op in ("get", "get_default", "getitem", "lmpv"):
